@@ -12,10 +12,23 @@ pub static CALL_COUNT: std::sync::atomic::AtomicUsize = std::sync::atomic::Atomi
 pub static TOTAL_PARSE_TIME: std::sync::atomic::AtomicUsize =
     std::sync::atomic::AtomicUsize::new(0);
 
+/// Bounds the parser's work for one text. Ordinary programs need well under a hundred rule
+/// calls per byte; some unfinished inputs (deeply nested lambdas whose brackets are never
+/// closed) make the backtracking parser revisit the same text over and over, and would
+/// otherwise keep it busy for hours before the syntax error is reported. With the limit such
+/// a text is rejected ("call limit reached") after a bounded amount of work.
+fn limit_parser_work(input: &str) {
+    pest::set_call_limit(std::num::NonZeroUsize::new(
+        1_000_000 + 2_000 * input.len(),
+    ));
+}
+
 #[allow(clippy::result_large_err)]
 pub fn get_pairs(input: &str) -> Result<Pairs<'_, Rule>, pest::error::Error<Rule>> {
     #[cfg(not(target_arch = "wasm32"))]
     let start = std::time::Instant::now();
+
+    limit_parser_work(input);
 
     let pairs = BlotsParser::parse(Rule::input, input);
 
@@ -33,6 +46,7 @@ pub fn get_pairs(input: &str) -> Result<Pairs<'_, Rule>, pest::error::Error<Rule
 
 #[allow(clippy::result_large_err)]
 pub fn get_tokens(input: &str) -> Result<Vec<Token<'_, Rule>>, pest::error::Error<Rule>> {
+    limit_parser_work(input);
     let pairs = BlotsParser::parse(Rule::input, input)?;
     let tokens: Vec<Token<Rule>> = pairs.flat_map(|pair| pair.tokens()).collect();
     Ok(tokens)
